@@ -29,3 +29,33 @@ Proof.
   destruct (should_checkpoint N o false (s_iter N P G st')); simpl in Hin; [|contradiction].
   destruct Hin as [E|[]]. symmetry. exact E.
 Qed.
+
+(* an interruption after any number k of the run's checkpoint writes leaves the dataset equal,
+   byte for byte, to the last payload written before it (or untouched when k = 0) *)
+Lemma file_after_last old blobs :
+  file_after old blobs = match blobs with [] => old | _ => Some (last blobs []) end.
+Proof.
+  unfold file_after. revert old. induction blobs as [|b bs IH]; intros old; [reflexivity|].
+  cbn [fold_left]. rewrite IH, write_blob_exact. destruct bs; reflexivity.
+Qed.
+
+Lemma file_after_interruption old blobs k :
+  file_after old (firstn k blobs)
+  = match firstn k blobs with [] => old | _ => Some (last (firstn k blobs) []) end.
+Proof. apply file_after_last. Qed.
+
+Lemma In_firstn_In {A} (x : A) k l : In x (firstn k l) -> In x l.
+Proof.
+  revert l; induction k as [|k IH]; intros [|y l] H; simpl in *; try contradiction.
+  destruct H as [H|H]; [left; exact H|right; apply IH; exact H].
+Qed.
+
+(* never a mixture: the dataset is one of the payloads written (or the old one), whole *)
+Lemma file_after_is_a_payload old blobs k b :
+  file_after old (firstn k blobs) = Some b -> old = Some b \/ In b blobs.
+Proof.
+  rewrite file_after_last. destruct (firstn k blobs) as [|x xs] eqn:E; intros H; [left; exact H|right].
+  injection H as <-. assert (Hin : In (last (x :: xs) []) (x :: xs)).
+  { clear. revert x; induction xs as [|y ys IH]; intros x; [left; reflexivity|]. right. apply IH. }
+  apply (In_firstn_In _ k). rewrite E. exact Hin.
+Qed.
